@@ -86,6 +86,8 @@ pub proof fn lemma_shl_is_pow2(k: usize)
 pub uninterp spec fn sp_configured_num_queries() -> usize;
 /// F::TWO_ADICITY
 pub uninterp spec fn sp_two_adicity() -> nat;
+/// FriParameters::max_log_arity of the configuration the verifier is meant to enforce (not carried by FriVerifierParams)
+pub uninterp spec fn sp_configured_max_log_arity() -> nat;
 #[verifier::external_body] pub fn two_adicity_() -> (r: usize) ensures r == sp_two_adicity() { unimplemented!() }
 pub open spec fn fri_shape_ok(fp: &FriProofTargets, n_betas: nat, ibq: Seq<Vec<Target>>, log_blowup: nat) -> bool {
     &&& n_betas > 0
@@ -198,6 +200,8 @@ def build():
         f.rewrite_re('SPEC', r'(let num_queries = fri_proof_targets\.query_proofs\.len\(\);)',
                      r'\1 proof { assert(num_queries == sp_configured_num_queries()); } // @@A:H_the_number_of_query_proofs_is_the_configured_number_of_queries\n')
     f.ensures('ok_implies_well_formed', 'ret is Ok ==> fri_shape_ok(fri_proof_targets, betas@.len(), index_bits_per_query@, log_blowup as nat)')
+    # native verify_fri: InvalidLogArity for a phase folding by more than the configured max_log_arity; FriVerifierParams carries no such bound (open finding)
+    f.ensures('H_no_phase_folds_by_more_than_the_configured_max_log_arity', 'ret is Ok ==> forall|p_: int| 0 <= p_ < fri_proof_targets.log_arities@.len() ==> #[trigger] fri_proof_targets.log_arities@[p_] <= sp_configured_max_log_arity()')
     f.ensures('malformed_is_invalid_proof_shape', 'ret matches Err(e) ==> e is InvalidProofShape')
     u.text('verus! {')
     u.emit(f)
